@@ -207,9 +207,13 @@ Proof.
   apply matches_from_none. intros j Hj. specialize (Hfront j i ltac:(lia) ltac:(lia)). lia.
 Qed.
 
+Lemma Abs_prefix_RU : forall I J sb O, AbsRU I J sb O -> 0 <= I <= len L -> 0 <= J <= len R ->
+  exists rest, join_spec emit inv L R = O ++ rest.
+Proof. intros I J sb O (_ & _ & _ & HO & _) HI _. subst O. apply rows_upto_prefix. exact HI. Qed.
+
 Definition KindOK_RU : KindOK KRU emit L R inv cs.
 Proof.
-  refine (mkKindOK KRU emit L R inv cs AbsRU LocRU _ _ _ kstep_ok_RU Abs_final_RU).
+  refine (mkKindOK KRU emit L R inv cs AbsRU LocRU _ _ _ kstep_ok_RU Abs_final_RU Abs_prefix_RU).
   - intros s Hr Hi Hj. unfold LocRU. lia.
   - unfold AbsRU. simp_st. pose proof (len_nonneg L). pose proof (len_nonneg R).
     splits; try lia; try reflexivity.
